@@ -166,6 +166,13 @@ def run(ctx):
     rng = ctx.rng('bad')
     n = 90 if ctx.tier == 'quick' else 1000
     data_level_cases(ctx)
+    # integers outside their code's range inside value lists of any length (the value layer above write_struct): must raise
+    for k in range(16 if ctx.tier == 'quick' else 200):
+        prog, info = apistream.gen_value_lists(rng, bad=rng.choice([2 ** 31, -2 ** 31 - 1, 2 ** 32 + 5]))
+        r = apistream.run_one(ctx, prog, 'K-api-int-lists')
+        ctx.count('K-malformed', key=('int_in_list', k, info['count']))
+        if r['files'] and info['attribute'] == 'coordinates':
+            ctx.violation('integer-outside-its-code-was-written', {'program': apistream.strip_private(prog), **info})
     for k in range(n):
         base, _ = apistream.base_program(rng, vrl=rng.choice([128, 8192]), explicit_origins=False)
         for s in base:
